@@ -84,6 +84,7 @@ type Fam struct {
 	delivered map[string]bool // tx hashes delivered OK (tx index stand-in)
 	donated  sdk.Int          // coins sent straight to the pool address
 	minStake int64
+	minChanged, windowChanged bool
 	mea      int64
 	// monitor bookkeeping
 	feesThisBlock map[string]sdk.Int
@@ -168,6 +169,7 @@ func (f *Fam) doInit(w []string) string {
 	f.db = dbm.NewMemDB()
 	f.app = NewApp(f.db, "tcp://127.0.0.1:1", sdk.PruningOptions{})
 	f.dead, f.height, f.inBlock = false, 0, false
+	f.minChanged, f.windowChanged = false, false
 	f.tm, f.tmHist, f.pending = map[string]int64{}, nil, nil
 	f.delivered = map[string]bool{}
 	f.donated = sdk.ZeroInt()
@@ -297,10 +299,10 @@ func (f *Fam) applyUpdates(ups []abci.ValidatorUpdate) string {
 
 // ---------------------------------------------------------------- blocks
 
-// begin h=<height> t=<ns> p=<proposer addr> v=<addr:power:signed,...> e=<addr:height:time:power,...>
+// begin t=<ns> p=<proposer addr> v=<addr:power:signed,...> e=<addr:height:time:power,...>
 func (f *Fam) doBegin(w []string) string {
 	m := kv(w)
-	f.height = atoi(m["h"])
+	f.height++ // heights are implicit (consecutive), so that shrinking can drop whole blocks
 	f.now = atoi(m["t"])
 	f.lastProposer = f.proposer
 	f.proposer = m["p"]
